@@ -316,6 +316,11 @@ class ExprMixin:
 
     # ------------------------------------------------------------------ operators
     def ev_UnaryOp(self, st, e, cx):
+        if cx.spec is not None and isinstance(e.op, ast.Not):
+            with self.qscope(flip=True):        # `not` flips the polarity a quantifier below it is handled with
+                v = self.ev1(st, e.operand, cx)
+            yield st, self.o.bool_(z3.Not(self.o.truthy(st, v)))
+            return
         for st1, v in self.ev(st, e.operand, cx):
             if isinstance(v, Raise):
                 yield st1, v
@@ -329,8 +334,20 @@ class ExprMixin:
     def ev_BoolOp(self, st, e, cx):
         isor = isinstance(e.op, ast.Or)
         if cx.spec is not None:
-            vals = [self.o.truthy(st, self.ev1(st, x, cx)) for x in e.values]
-            yield st, self.o.bool_(z3.Or(vals) if isor else z3.And(vals))
+            if not isor:
+                vals = [self.o.truthy(st, self.ev1(st, x, cx)) for x in e.values]
+                yield st, self.o.bool_(z3.And(vals))
+                return
+            # A or B or C: a quantifier in the first operand cannot be guarded; later operands hold under "none of the earlier"
+            vals = []
+            for i, x in enumerate(e.values):
+                if i == 0:
+                    with self.qscope(forbid="the first operand of `or`"):
+                        vals.append(self.o.truthy(st, self.ev1(st, x, cx)))
+                else:
+                    with self.qscope(guard=z3.Not(z3.Or(vals))):
+                        vals.append(self.o.truthy(st, self.ev1(st, x, cx)))
+            yield st, self.o.bool_(z3.Or(vals))
             return
 
         def rec(st, i):
@@ -727,6 +744,35 @@ class ExprMixin:
                 lo2, hi2 = clamp(lo), clamp(hi)
                 sub = z3.SubSeq(seq, lo2, z3.If(hi2 > lo2, hi2 - lo2, 0))
                 yield st1, (o.bytes_(sub) if t == "bytes" else o.str_(sub))
+                continue
+            if t and t.startswith("ref:") and o.refcls(st1, c, ("list", "tuple")) and cx.spec is None:
+                # seq[lo:hi] of a list / tuple (also of a /repo subclass of list, whose __getitem__ is the built-in's):
+                # a NEW plain list (tuple) holding the items lo..hi-1 in order
+                kind = o.refcls(st1, c, ("list", "tuple"))
+                c0 = c.ty[4:]
+                if c0 in self.src.classes and self.src.find_method(c0, "__getitem__"):
+                    raise Unsupported("slice of a class that defines __getitem__")
+                from .eval_call import Schema
+                r = o.r(c)
+                n = o.seq_len(st1, r)
+                hi = o.i(next(it)) if sl.upper is not None else n
+
+                def clamp(x, n=n):
+                    x = z3.If(x < 0, x + n, x)
+                    return z3.If(x < 0, 0, z3.If(x > n, n, x))
+                lo2, hi2 = clamp(lo), clamp(hi)
+                st2 = st1.clone()
+                src_items = st2.rd("$items", r)
+                nr = st2.new_ref(kind)
+                new = self.w.fresh("slice_items", self.w.SORTS["items"])
+                ln = z3.If(hi2 > lo2, hi2 - lo2, 0)
+
+                def inst(j, new=new, src_items=src_items, lo2=lo2, ln=ln):
+                    return z3.Implies(z3.And(j >= 0, j < ln), z3.Select(new, j) == z3.Select(src_items, j + lo2))
+                st2.schemas = st2.schemas + [Schema("int", inst, "slice")]
+                st2.wr("$items", nr, new)
+                st2.wr("$len", nr, ln)
+                yield st2, o.ref(nr, kind)
                 continue
             raise Unsupported("slice of %s" % t)
 
